@@ -505,7 +505,9 @@ func runC30(p *core.Prog, r *core.Report) {
 			continue
 		}
 		okp := false
-		for _, s := range core.CallSites([]*ssa.Function{fn}, func(s core.Site) bool { return strings.HasSuffix(s.Name, ").Purge") && strings.Contains(s.Name, "golang-lru") }) {
+		for _, s := range core.CallSites([]*ssa.Function{fn}, func(s core.Site) bool {
+			return strings.HasSuffix(s.Name, ").Purge") && strings.Contains(s.Name, "golang-lru")
+		}) {
 			in := s.Call.(ssa.Instruction)
 			b := in.Block()
 			all := true
